@@ -107,6 +107,14 @@ def gen_cases(seed, tier):
         cases.append(_case(docgen.soup(rnd, toks, 1, 10), _opts(rnd), 'soup'))
     for _ in range(1500 if quick else 20000):
         cases.append(_case(docgen.gen_doc(rnd, 'default'), _opts(rnd), 'doc'))
+    # accents over characters without a Unicode name (private use, unassigned, noncharacters), over rare dotless
+    # letters and over astral characters
+    odd = ['\ue000', '\uf8ff', '\u0378', '\uffff', '\U000e0001', '\u0284', '\u0716', '\u1da1', '\U00010798',
+           '\u0131', '\u0237', '\ud7ff', '\U0010ffff', '\U0001f600', '\u0300']
+    for a in ["'", '`', '"', '^', '~', 'c', 'hat', 'vec', 'bar', 'tilde', 'dot', 'k', 'H', '=', 'v']:
+        for ch in odd:
+            cases.append(_case('\\' + a + '{' + ch + '}', _opts(rnd), 'accent-odd-character'))
+            cases.append(_case('x\\' + a + (' ' if a[-1].isalpha() else '') + ch + 'y', _opts(rnd), 'accent-odd-character'))
     # deep nesting (well inside the interpreter's stack): linear work, whatever the options
     r2 = random.Random(seed + 701)
     for op, cl, per in DEEP:
